@@ -25,6 +25,8 @@ structural and decided here:
              tighter than its parent (right grouping), a right operand when it binds looser,
              ``not`` whenever it is an operand, and comparison / membership operators are
              serialised with the same rule.
+  C04-TOKEN  no evaluate / render method reads the kind or text of the token a *sub-expression* was
+             parsed from (``self.<field>.token.kind``): str() cannot write that back.
   C04-VERBATIM  a node that keeps source text (the content node's text, the liquid tag's expression
              token) writes it back unchanged: copies, f-strings, concatenation and a strip of the
              whole text are the only operations between the field and the returned string.
@@ -414,7 +416,7 @@ def verbatim_flow(fn: ast.AST, is_raw) -> list[tuple[ast.AST, str]]:
 
 def run(repo: Repo) -> Result:
     res = Result(PID)
-    res.rules = ["C04-RAW", "C04-ORDER", "C04-COVER", "C04-SKEL", "C04-WORDS", "C04-QUOTE", "C04-PREC", "C04-VERBATIM"]
+    res.rules = ["C04-RAW", "C04-ORDER", "C04-COVER", "C04-SKEL", "C04-WORDS", "C04-QUOTE", "C04-PREC", "C04-VERBATIM", "C04-TOKEN"]
     res.explanation = "necessary conditions of round-trip serialisation: field coverage of __str__, markup skeleton shape, reader/writer keyword agreement, quoting without escapes, bracket rule using the parser's binding powers"
     res.assumptions = ["equality of the re-parsed tree for every template is not decided (value level)"]
     reg = Registry(repo)
@@ -795,6 +797,28 @@ def run(repo: Repo) -> Result:
                     res.add("C04-RAW", cn.qual, f"raw-guard:{sorted(missing)}", f"ContentNode.__str__ re-wraps text in a raw block only when `{text(t)[:80]}`; it must do so whenever the text contains `{{{{` or `{{%` (missing: {sorted(missing)})", m.file, wrapped.lineno)
     elif raw_kind is None:
         raise AnchorMissing("liquid.lex._tokenize_template: the RAW branch no longer assigns `kind`; re-derive C04-RAW")
+
+    # ---- C04-TOKEN: what an expression evaluates to does not depend on how it was spelled ------------
+    # Serialising cannot preserve the *kind* of the token a sub-expression was read from (a bare
+    # `continue` and the quoted 'continue' both become a StringLiteral, and str() writes the quoted
+    # form).  So no evaluate / render code of a node or expression class may branch on, or read,
+    # `self.<field>.token.kind` / `.token.value` of a sub-expression: the re-parsed template would
+    # take the other branch.  (A node's *own* token — its tag name — is written back by __str__ and
+    # may be read.)
+    n_tok = 0
+    for c in list({q: c for q, (c, _t) in node_classes.items()}.values()) + list(expr_classes):
+        for mname, m in c.methods.items():
+            if not (mname.startswith(("evaluate", "render", "_slice", "_to_iter", "_make_range", "_evaluate")) or mname in ("children", "children_async")):
+                continue
+            n_tok += 1
+            for n in ast.walk(m.node):
+                if isinstance(n, ast.Attribute) and n.attr in ("kind", "value"):
+                    ch = attr_chain(n)
+                    if ch and len(ch) == 4 and ch[0] == "self" and ch[2] == "token":
+                        res.add("C04-TOKEN", c.qual, f"{mname}:{'.'.join(ch)}", f"{c.name}.{mname} reads `{'.'.join(ch)}`: what the expression evaluates to depends on the kind/text of the token self.{ch[1]} was parsed from, which str() does not write back (a bare keyword and its quoted form are the same node) — the serialised template renders differently", m.file, n.lineno)
+    res.ob("token-independent-evaluation", max(1, n_tok))
+    if n_tok < 40:
+        raise AnchorMissing(f"C04-TOKEN: only {n_tok} evaluate/render methods examined")
 
     # ---- C04-VERBATIM: source text kept by a node is written back unchanged --------------------------
     # The content node renders ``self.text`` as is, and the liquid tag's node keeps the *source* of
